@@ -116,6 +116,11 @@ def supported(meta):
     """documented-supported layouts (conservative): plain operators, ordinary statement contexts, and no two
     lambdas starting on the same physical line with the same operator and the same parameter name"""
     shape, ctx = meta[0], meta[1]
+    if shape.startswith("named:"):
+        # functions defined with def and passed by name are a documented way to supply the callable
+        parts = shape.split(":")
+        return "lam" not in parts[2:] and ctx in ("module", "def", "method") and not any(c[0] == "sel" for c in meta[2:]) \
+            and not parts[1].startswith("mixed")
     calls = meta[2:] if len(meta) > 3 else meta[2]
     if isinstance(calls[0], str):
         calls = meta[2:]
@@ -160,6 +165,10 @@ class C03(Check):
         return [
             Space("two-calls", {"ops": layouts.OPS, "params": layouts.PARAMS, "styles": styles, "contexts": ctxs},
                   (lambda: layouts.enumerate_two_calls(layouts.OPS, layouts.PARAMS, styles, ctxs)), runner="run_lay"),
+            Space("named-functions", {"forms": ["one-line def", "two-line def", "def with docstring", "def with comment",
+                                                "lambda bound to a name"], "calls": ["one", "two", "mixed with an inline lambda",
+                                                                                    "two statements"]},
+                  layouts.enumerate_named_functions, runner="run_lay"),
             Space("three-calls", {"ops": layouts.OPS[:3] if Q else layouts.OPS, "params": layouts.PARAMS},
                   (lambda: layouts.enumerate_three_calls(layouts.OPS[:3] if Q else layouts.OPS, layouts.PARAMS,
                                                          ("module", "def", "oneline-def", "oneline-def1", "method"))), runner="run_lay"),
